@@ -30,7 +30,7 @@ UNRELIABLE = {"ACK", "ACK_ECN", "PADDING", "PATH_CHALLENGE", "PATH_RESPONSE", "D
 
 # handler -> what its not-ACKED branch must do, and where / how the writer side consumes it
 PAIRS = {
-    "on_data_delivery": {"mod": "quic.stream", "cls": "QuicStreamSender", "rearm": ["self._pending.add(start, stop)", "self._pending_eof = True"], "consume_fn": "quic.stream:QuicStreamSender.get_frame", "consume": ["self._pending.subtract(start, stop)", "self._pending_eof = False"], "sched": ["buffer_is_empty"], "args": "(frame.offset, frame.offset + len(frame.data), {fin})", "getter_first": True},
+    "on_data_delivery": {"mod": "quic.stream", "cls": "QuicStreamSender", "rearm": ["self._pending.add(start, stop)", "self._pending_eof = True"], "consume_fn": "quic.stream:QuicStreamSender.get_frame", "consume": ["self._pending.subtract(start, stop)", "self._pending_eof = False"], "sched": ["buffer_is_empty"], "with": "self.buffer_is_empty = False", "args": "(frame.offset, frame.offset + len(frame.data), {fin})", "getter_first": True},
     "on_reset_delivery": {"mod": "quic.stream", "cls": "QuicStreamSender", "rearm": ["self.reset_pending = True"], "consume_fn": "quic.stream:QuicStreamSender.get_reset_frame", "consume": ["self.reset_pending = False"], "sched": ["reset_pending"], "args": None},
     "on_stop_sending_delivery": {"mod": "quic.stream", "cls": "QuicStreamReceiver", "rearm": ["self.stop_pending = True"], "consume_fn": "quic.stream:QuicStreamReceiver.get_stop_frame", "consume": ["self.stop_pending = False"], "sched": ["stop_pending"], "args": None},
     "_on_connection_limit_delivery": {"mod": "quic.connection", "cls": "QuicConnection", "rearm": ["limit.sent = 0"], "consume_fn": CONN + "_write_connection_limits", "consume": ["limit.sent = limit.value"], "sched": ["limit.value != limit.sent"], "args": "(limit,)"},
@@ -148,6 +148,10 @@ def r1(repo, chk):
             for s in hit:
                 extra = [a for a in h.lexical_guards(s, expand=False) if "QuicDeliveryState" not in a[0] and a not in (("stop > start", True), ("fin", True))]
                 chk.ob("R1", f"{hname}: `{want}` is conditional only on the frame being lost (and on what the frame carried)", not extra, f"additional conditions {extra}", h.loc(s))
+                if spec.get("with"):
+                    # the scheduler does not read the re-armed state itself but a summary flag: it must be set with it
+                    sib = [norm(x) for x in getattr(getattr(s, "_parent", None), "body", [])]
+                    chk.ob("R1", f"{hname}: `{want}` comes with `{spec['with']}` (the flag the scheduler reads)", spec["with"] in sib, "the re-armed state is invisible to _write_application, which skips streams whose sender reports an empty buffer: a frame lost on its own is never retransmitted", h.loc(s))
         # re-arm happens for LOST, not for ACKED
         acked = [norm(s) for s in h.stmts() if (natom(f"{dpar} == QuicDeliveryState.ACKED") in h.guard_atoms(s) + h.lexical_guards(s, expand=False))]
         bad = [w for w in spec["rearm"] if w in acked]
@@ -305,6 +309,22 @@ def r2(repo, chk):
     ws = [(st, v) for st, t, v in oa.assigns(suffix="ack_queue_start")]
     ok = bool(ws) and all(any(" > " in a[0] and "ack_queue_start" in a[0] and a[1] for a in oa.guard_atoms(st)) for st, v in ws)
     chk.ob("R2", "_on_ack_delivery raises the duplicate floor together with pruning (never lowers it)", ok, "", oa.loc(oa.node))
+    # every number that leaves the queue is below the floor afterwards: floor := end of the removed range
+    subs = [c for c in oa.calls(suffix="subtract") if call_name(c).endswith("ack_queue.subtract")]
+    ok = len(subs) == 1 and len(subs[0].args) == 2 and norm(subs[0].args[0]) == "0" and bool(ws) and all(norm(v) == norm(subs[0].args[1]) for st, v in ws) and all(natom(f"{norm(subs[0].args[1])} > space.ack_queue_start") in oa.guard_atoms(st) for st, v in ws)
+    chk.ob("R2", "_on_ack_delivery: the floor becomes exactly the end of the pruned range [0, end)", ok, f"pruned {[norm(a) for c in subs for a in c.args]}, floor := {[norm(v) for st, v in ws]}: a packet number that is neither in the queue nor below the floor is processed again when a late copy arrives", oa.loc(oa.node))
+    # the test in receive_datagram is the strict `packet_number < floor`
+    strict = [a for a in rd.guard_atoms(pr[0]) if "ack_queue_start" in a[0]]
+    ok = natom("packet_number < space.ack_queue_start", False) in strict or natom("packet_number >= space.ack_queue_start") in strict
+    chk.ob("R2", "receive_datagram drops exactly the numbers below the floor (packet_number < ack_queue_start)", ok, f"{strict}", rd.loc(pr[0]))
+    # the other place that removes ranges from the queue (bounded number of ACK ranges) raises the floor to what it dropped
+    for c in rd.calls(suffix="shift"):
+        if call_name(c).endswith("ack_queue.shift"):
+            st = c
+            while st is not None and not isinstance(st, ast.stmt):
+                st = getattr(st, "_parent", None)
+            txt = norm(st) if st is not None else ""
+            chk.ob("R2", "receive_datagram: ranges dropped from a full ACK queue raise the floor to their end", txt.replace(" ", "") == "space.ack_queue_start=space.ack_queue.shift().stop", f"`{txt}`", rd.loc(c))
 
 
 def r3(repo, chk):
